@@ -10,8 +10,8 @@ Definition dtok (o : list ev) : Prop := Forall ev_dt_ok o.
 (* bytes in the port buffer or still to come *)
 Definition psz (s : st) : nat := length (pend s) + length (stream_of (orc s)).
 
-(* how many more silent 40-tick reads fit before the deadline ts + t *)
-Definition tleft (ts t : Z) (s : st) : nat := Z.to_nat ((Z.max 0 (ts + t - clk s) + 39) / 40).
+(* ticks left before the deadline ts + t, plus one (a silent read lasts at least one tick) *)
+Definition tleft (ts t : Z) (s : st) : nat := Z.to_nat (Z.max 0 (ts + t - clk s + 1)).
 
 Definition tpart (tmo : option Z) (ts : Z) (s : st) : nat :=
   match tmo with Some t => tleft ts t s | None => 0 end.
@@ -35,12 +35,12 @@ Proof.
   - inversion D; subst. repeat split; auto; try lia; discriminate.
 Qed.
 
-Lemma ser_read_meas k s s' b sil :
-  dtok (orc s) -> ser_read k s = (s', b, sil) ->
-  dtok (orc s') /\ (clk s <= clk s')%Z /\ psz s' + length b = psz s /\
+Lemma ser_read_meas tk k s s' b sil :
+  dtok (orc s) -> ser_read tk k s = (s', b, sil) ->
+  dtok (orc s') /\ ((0 <= tk)%Z -> (clk s <= clk s')%Z) /\ psz s' + length b = psz s /\
   (orc s <> [] -> S (length (orc s')) = length (orc s) /\ sil = false) /\
   (orc s = [] -> orc s' = [] /\
-     (sil = true -> clk s' = (clk s + ser_tick)%Z) /\
+     (sil = true -> clk s' = (clk s + tk)%Z) /\
      (sil = false -> clk s' = clk s /\ len b = k)).
 Proof.
   intros D H. destruct (ser_arrive_meas s D) as (A1 & A2 & A3 & A4 & A5).
@@ -49,7 +49,7 @@ Proof.
   destruct (orc s) as [|e r] eqn:Eo.
   - rewrite (A5 eq_refl) in *. destruct (len (pend s) <? k)%N eqn:Ek; inversion H; subst; sim;
       unfold psz in *; sim; rewrite Eo in *; cbn [stream_of length] in *.
-    + repeat split; auto; try lia; try congruence. unfold ser_tick. lia.
+    + repeat split; auto; try lia; try congruence.
     + repeat split; auto; try lia; try congruence. apply len_take. lia.
   - inversion H; subst; sim. unfold psz in *; sim. repeat split; auto; try lia; try congruence.
 Qed.
@@ -66,65 +66,81 @@ Qed.
 Lemma tleft_mono ts t s s' : (clk s <= clk s')%Z -> tleft ts t s' <= tleft ts t s.
 Proof. unfold tleft. lia. Qed.
 
-Lemma tleft_tick ts t s s' :
-  clk s' = (clk s + ser_tick)%Z -> (0 < ts + t - clk s)%Z -> S (tleft ts t s') = tleft ts t s.
-Proof. unfold tleft, ser_tick. lia. Qed.
+Lemma tleft_tick ts t tk s s' :
+  clk s' = (clk s + tk)%Z -> (0 < tk)%Z -> (0 <= ts + t - clk s')%Z -> S (tleft ts t s') <= tleft ts t s.
+Proof. unfold tleft. lia. Qed.
+
+Lemma deadline_left p t ts now tr : deadline p (Some t) ts now = DlLeft tr -> (0 <= ts + t - now)%Z.
+Proof.
+  unfold deadline, passed. destruct p.
+  - destruct (ts + t - now <=? 0)%Z eqn:E; [discriminate | lia].
+  - destruct (ts + t - now <? 0)%Z eqn:E; [discriminate | lia].
+Qed.
 
 (* ---- read loop ------------------------------------------------------------------------------ *)
 
-Lemma ser_read_loop_dtok : forall fuel n tmo ts s s' r,
-  dtok (orc s) -> ser_read_loop fuel n tmo ts s = (s', r) -> dtok (orc s').
+Lemma ser_read_loop_dtok sc : forall fuel n tmo ts s s' r,
+  dtok (orc s) -> ser_read_loop sc fuel n tmo ts s = (s', r) -> dtok (orc s').
 Proof.
   induction fuel as [|f IH]; intros n tmo ts s s' r D H; cbn [ser_read_loop] in H.
   - inversion H; subst. exact D.
-  - destruct (ser_read (n - len (buf s)) s) as [[s1 b] sil] eqn:Er.
-    pose proof (ser_read_meas _ _ _ _ _ D Er) as (M1 & _).
-    destruct (n <=? len (buf (set_buf s1 (buf s1 ++ b))))%N; [inversion H; subst; exact M1|].
-    destruct tmo as [t|].
-    + destruct (ts + t - clk (set_buf s1 (buf s1 ++ b)) <=? 0)%Z; [inversion H; subst; exact M1|].
-      apply IH in H; [exact H | exact M1].
+  - destruct (ser_read (tick sc) (n - len (buf s)) s) as [[s1 b] sil] eqn:Er.
+    pose proof (ser_read_meas _ _ _ _ _ _ D Er) as (M1 & _).
+    destruct (n <=? len (buf (set_buf s1 (buf s1 ++ b))))%N.
+    { destruct (deadline _ tmo ts (clk (set_buf s1 (buf s1 ++ b))));
+        try destruct (late_read (spol sc)); inversion H; subst; exact M1. }
+    destruct (deadline _ tmo ts (clk (set_buf s1 (buf s1 ++ b)))).
     + destruct sil; [inversion H; subst; exact M1|]. apply IH in H; [exact H | exact M1].
+    + inversion H; subst; exact M1.
+    + apply IH in H; [exact H | exact M1].
 Qed.
 
-Lemma ser_read_loop_fuel : forall fuel n tmo ts s s' r,
-  dtok (orc s) -> ser_read_loop fuel n tmo ts s = (s', r) ->
+Lemma ser_read_loop_fuel sc : forall fuel n tmo ts s s' r,
+  (0 < tick sc)%Z -> dtok (orc s) -> ser_read_loop sc fuel n tmo ts s = (s', r) ->
   length (orc s) + tpart tmo ts s < fuel -> r <> RFuel.
 Proof.
-  induction fuel as [|f IH]; intros n tmo ts s s' r D H L; [lia|]. cbn [ser_read_loop] in H.
-  destruct (ser_read (n - len (buf s)) s) as [[s1 b] sil] eqn:Er.
-  pose proof (ser_read_meas _ _ _ _ _ D Er) as (M1 & M2 & M3 & M4 & M5).
+  induction fuel as [|f IH]; intros n tmo ts s s' r TK D H L; [lia|]. cbn [ser_read_loop] in H.
+  destruct (ser_read (tick sc) (n - len (buf s)) s) as [[s1 b] sil] eqn:Er.
+  pose proof (ser_read_meas _ _ _ _ _ _ D Er) as (M1 & M2 & M3 & M4 & M5). specialize (M2 ltac:(lia)).
   apply ser_read_spec in Er as (_ & Eb & _ & _ & _).
-  destruct (n <=? len (buf (set_buf s1 (buf s1 ++ b))))%N eqn:En; [inversion H; subst; discriminate|].
+  destruct (n <=? len (buf (set_buf s1 (buf s1 ++ b))))%N eqn:En.
+  { destruct (deadline _ tmo ts (clk (set_buf s1 (buf s1 ++ b))));
+      try destruct (late_read (spol sc)); inversion H; subst; discriminate. }
   sim.
   assert (REC : length (orc s1) + tpart tmo ts s1 < f ->
-                ser_read_loop f n tmo ts (set_buf s1 (buf s1 ++ b)) = (s', r) -> r <> RFuel).
-  { intros L' HH. eapply IH; [| exact HH |]; sim; [exact M1|]. unfold tpart, tleft in *; sim; exact L'. }
-  destruct (orc s) as [|e o'] eqn:Eo.
-  - destruct (M5 eq_refl) as (O1 & S1 & S2). destruct sil.
-    + specialize (S1 eq_refl). destruct tmo as [t|]; [|inversion H; subst; discriminate].
-      destruct (ts + t - clk s1 <=? 0)%Z eqn:Et; [inversion H; subst; discriminate|].
-      apply REC; [|exact H]. rewrite O1. cbn [length tpart] in *.
-      pose proof (tleft_tick ts t s s1 S1 ltac:(unfold ser_tick in *; lia)). lia.
-    + destruct (S2 eq_refl) as [_ Lb]. rewrite Eb, len_app in En. lia.
-  - destruct (M4 ltac:(discriminate)) as [L1 ->]. cbn [length] in *.
-    assert (T : tpart tmo ts s1 <= tpart tmo ts s)
-      by (destruct tmo; cbn [tpart]; [apply tleft_mono, M2 | lia]).
-    destruct tmo as [t|].
-    + destruct (ts + t - clk s1 <=? 0)%Z; [inversion H; subst; discriminate|]. apply REC; [lia | exact H].
-    + apply REC; [lia | exact H].
+                ser_read_loop sc f n tmo ts (set_buf s1 (buf s1 ++ b)) = (s', r) -> r <> RFuel).
+  { intros L' HH. eapply IH; [exact TK | | exact HH |]; sim; [exact M1|]. unfold tpart, tleft in *; sim; exact L'. }
+  destruct (deadline _ tmo ts (clk s1)) as [| |tr] eqn:Edl; [| inversion H; subst; discriminate |].
+  - (* no timeout *)
+    assert (tmo = None) as -> by (destruct tmo; [cbn in Edl; destruct (passed _ _) in Edl; discriminate | reflexivity]).
+    cbn [tpart] in *. destruct (orc s) as [|e o'] eqn:Eo.
+    + destruct (M5 eq_refl) as (O1 & S1 & S2). destruct sil; [inversion H; subst; discriminate|].
+      destruct (S2 eq_refl) as [_ Lb]. rewrite Eb, len_app in En. lia.
+    + destruct (M4 ltac:(discriminate)) as [L1 ->]. cbn [length] in *. apply REC; [lia | exact H].
+  - destruct tmo as [t|]; [|discriminate]. cbn [tpart] in *.
+    pose proof (deadline_left _ _ _ _ _ Edl) as Dl.
+    destruct (orc s) as [|e o'] eqn:Eo.
+    + destruct (M5 eq_refl) as (O1 & S1 & S2). destruct sil.
+      * specialize (S1 eq_refl). apply REC; [|exact H]. rewrite O1. cbn [length].
+        pose proof (tleft_tick ts t (tick sc) s s1 S1 TK Dl). lia.
+      * destruct (S2 eq_refl) as [_ Lb]. rewrite Eb, len_app in En. lia.
+    + destruct (M4 ltac:(discriminate)) as [L1 _]. cbn [length] in *.
+      pose proof (tleft_mono ts t s s1 M2). apply REC; [lia | exact H].
 Qed.
 
 (* ---- read_until loop ------------------------------------------------------------------------ *)
 
-Lemma ser_ru_loop_dtok term : forall fuel tmo ts tr s s' r,
-  dtok (orc s) -> ser_ru_loop fuel term tmo ts tr s = (s', r) -> dtok (orc s').
+Lemma ser_ru_loop_dtok sc term : forall fuel tmo ts tr s s' r,
+  dtok (orc s) -> ser_ru_loop sc fuel term tmo ts tr s = (s', r) -> dtok (orc s').
 Proof.
   induction fuel as [|f IH]; intros tmo ts tr s s' r D H; cbn [ser_ru_loop] in H.
   - inversion H; subst. exact D.
-  - destruct (tmo_nonpos tr); [inversion H; subst; exact D|].
-    destruct (ser_read 1 s) as [[s1 b] sil] eqn:Er.
-    pose proof (ser_read_meas _ _ _ _ _ D Er) as (M1 & _).
-    destruct (endswith (buf (set_buf s1 (buf s1 ++ b))) term); [inversion H; subst; exact M1|].
+  - destruct (tr_passed _ tr); [inversion H; subst; exact D|].
+    destruct (ser_read (tick sc) 1 s) as [[s1 b] sil] eqn:Er.
+    pose proof (ser_read_meas _ _ _ _ _ _ D Er) as (M1 & _).
+    destruct (endswith (buf (set_buf s1 (buf s1 ++ b))) term).
+    { destruct (deadline _ tmo ts (clk (set_buf s1 (buf s1 ++ b))));
+        try destruct (late_ru (spol sc)); inversion H; subst; exact M1. }
     destruct tmo as [t|].
     + apply IH in H; [exact H | exact M1].
     + destruct sil; [inversion H; subst; exact M1|]. apply IH in H; [exact H | exact M1].
@@ -134,20 +150,25 @@ Qed.
 Definition tr_ok (tmo : option Z) (ts : Z) (tr : option Z) (s : st) : Prop :=
   match tmo with Some t => tr = Some (ts + t - clk s)%Z | None => tr = None end.
 
-Lemma ser_ru_loop_fuel term : forall fuel tmo ts tr s s' r,
-  dtok (orc s) -> tr_ok tmo ts tr s -> ser_ru_loop fuel term tmo ts tr s = (s', r) ->
+Lemma passed_false p x : passed p x = false -> (0 <= x)%Z.
+Proof. unfold passed. destruct p; lia. Qed.
+
+Lemma ser_ru_loop_fuel sc term : forall fuel tmo ts tr s s' r,
+  (0 < tick sc)%Z -> dtok (orc s) -> tr_ok tmo ts tr s -> ser_ru_loop sc fuel term tmo ts tr s = (s', r) ->
   length (orc s) + psz s + tpart tmo ts s < fuel -> r <> RFuel.
 Proof.
-  induction fuel as [|f IH]; intros tmo ts tr s s' r D TR H L; [lia|]. cbn [ser_ru_loop] in H.
-  destruct (tmo_nonpos tr) eqn:Enp; [inversion H; subst; discriminate|].
-  destruct (ser_read 1 s) as [[s1 b] sil] eqn:Er.
-  pose proof (ser_read_meas _ _ _ _ _ D Er) as (M1 & M2 & M3 & M4 & M5).
-  destruct (endswith (buf (set_buf s1 (buf s1 ++ b))) term); [inversion H; subst; discriminate|].
+  induction fuel as [|f IH]; intros tmo ts tr s s' r TK D TR H L; [lia|]. cbn [ser_ru_loop] in H.
+  destruct (tr_passed _ tr) eqn:Enp; [inversion H; subst; discriminate|].
+  destruct (ser_read (tick sc) 1 s) as [[s1 b] sil] eqn:Er.
+  pose proof (ser_read_meas _ _ _ _ _ _ D Er) as (M1 & M2 & M3 & M4 & M5). specialize (M2 ltac:(lia)).
+  destruct (endswith (buf (set_buf s1 (buf s1 ++ b))) term).
+  { destruct (deadline _ tmo ts (clk (set_buf s1 (buf s1 ++ b))));
+      try destruct (late_ru (spol sc)); inversion H; subst; discriminate. }
   sim.
   assert (REC : forall tr', tr_ok tmo ts tr' s1 ->
                 length (orc s1) + psz s1 + tpart tmo ts s1 < f ->
-                ser_ru_loop f term tmo ts tr' (set_buf s1 (buf s1 ++ b)) = (s', r) -> r <> RFuel).
-  { intros tr' T' L' HH. eapply IH; [| | exact HH |]; sim; [exact M1 | | ].
+                ser_ru_loop sc f term tmo ts tr' (set_buf s1 (buf s1 ++ b)) = (s', r) -> r <> RFuel).
+  { intros tr' T' L' HH. eapply IH; [exact TK | | | exact HH |]; sim; [exact M1 | | ].
     - unfold tr_ok in *. sim. exact T'.
     - unfold tpart, tleft, psz in *; sim; exact L'. }
   assert (T : tpart tmo ts s1 <= tpart tmo ts s)
@@ -155,9 +176,8 @@ Proof.
   destruct (orc s) as [|e o'] eqn:Eo.
   - destruct (M5 eq_refl) as (O1 & S1 & S2). rewrite O1 in *. cbn [length] in *. destruct sil.
     + specialize (S1 eq_refl). destruct tmo as [t|]; [|inversion H; subst; discriminate].
-      unfold tr_ok in TR. subst tr. cbn [tmo_nonpos] in Enp.
-      eapply REC; [reflexivity | | exact H]. cbn [tpart] in *.
-      pose proof (tleft_tick ts t s s1 S1 ltac:(lia)). lia.
+      unfold tr_ok in TR. subst tr. cbn [tr_passed] in Enp. apply passed_false in Enp.
+      eapply REC; [reflexivity | | exact H]. cbn [tpart] in *. unfold tleft in *. lia.
     + destruct (S2 eq_refl) as [_ Lb]. assert (length b = 1) by (unfold len in Lb; lia).
       destruct tmo as [t|]; eapply REC; try exact H; try reflexivity; lia.
   - destruct (M4 ltac:(discriminate)) as [L1 ->]. cbn [length] in *.
@@ -170,61 +190,65 @@ Lemma ser_fuel_bound tmo s ts :
   ts = clk s -> tmo_nonpos tmo = false \/ True ->
   length (orc s) + psz s + tpart tmo ts s < ser_fuel tmo s.
 Proof.
-  intros -> _. unfold ser_fuel, psz, tpart, tleft, ser_tick. destruct tmo as [t|]; lia.
+  intros -> _. unfold ser_fuel, psz, tpart, tleft. destruct tmo as [t|]; lia.
 Qed.
 
-Lemma ser_read_op_total n tmo s s' r :
-  dtok (orc s) -> ser_read_op n tmo s = (s', r) -> dtok (orc s') /\ r <> RFuel.
+Lemma ser_read_op_total sc n tmo s s' r :
+  (0 < tick sc)%Z -> dtok (orc s) -> ser_read_op sc n tmo s = (s', r) -> dtok (orc s') /\ r <> RFuel.
 Proof.
-  unfold ser_read_op. intros D H. destruct (negb (is_open s)); [inversion H; subst; split; [exact D | discriminate]|].
+  unfold ser_read_op. intros TK D H. destruct (negb (is_open s)); [inversion H; subst; split; [exact D | discriminate]|].
   destruct (n <=? len (buf s))%N; [inversion H; subst; sim; split; [exact D | discriminate]|].
   destruct (tmo_nonpos tmo).
   - destruct (ser_in_waiting s) as [s1 w] eqn:Ew.
     pose proof (ser_in_waiting_meas _ _ _ D Ew) as (W1 & _).
     destruct (n - len (buf s) <=? w)%N; [|inversion H; subst; split; [exact W1 | discriminate]].
-    destruct (ser_read (n - len (buf s)) s1) as [[s2 b] sil] eqn:Er.
-    pose proof (ser_read_meas _ _ _ _ _ W1 Er) as (M1 & _).
+    destruct (ser_read (tick sc) (n - len (buf s)) s1) as [[s2 b] sil] eqn:Er.
+    pose proof (ser_read_meas _ _ _ _ _ _ W1 Er) as (M1 & _).
     destruct (len (buf (set_buf s2 (buf s2 ++ b))) <? n)%N; inversion H; subst; sim; split; auto; discriminate.
   - split; [eapply ser_read_loop_dtok; eauto|].
-    eapply ser_read_loop_fuel; [exact D | exact H |].
+    eapply ser_read_loop_fuel; [exact TK | exact D | exact H |].
     pose proof (ser_fuel_bound tmo s (clk s) eq_refl (or_intror I)). unfold psz in *. lia.
 Qed.
 
-Lemma ser_read_until_total term tmo s s' r :
-  dtok (orc s) -> ser_read_until term tmo s = (s', r) -> dtok (orc s') /\ r <> RFuel.
+Lemma ser_read_until_total sc term tmo s s' r :
+  (0 < tick sc)%Z -> dtok (orc s) -> ser_read_until sc term tmo s = (s', r) -> dtok (orc s') /\ r <> RFuel.
 Proof.
-  unfold ser_read_until. intros D H.
-  destruct (negb (is_open s)); [inversion H; subst; split; [exact D | discriminate]|].
+  unfold ser_read_until. intros TK D H.
+  destruct (negb (is_open s)).
+  { destruct (ru_chk_first (spol sc)); [inversion H; subst; split; [exact D | discriminate]|].
+    destruct (cut_term term s) as [[sc0 rc]|] eqn:Ec; [|inversion H; subst; split; [exact D | discriminate]].
+    inversion H; subst sc0 rc. apply cut_term_Some in Ec as (bb & rest & -> & _ & _ & ->). sim.
+    split; [exact D | discriminate]. }
   set (s1 := match find term (buf s) with
              | Some _ => s
              | None => let '(sa, w) := ser_in_waiting s in
-                       let '(sb, b, _) := ser_read w sa in set_buf sb (buf sb ++ b)
+                       let '(sb, b, _) := ser_read (tick sc) w sa in set_buf sb (buf sb ++ b)
              end) in *.
   assert (D1 : dtok (orc s1)).
   { subst s1. destruct (find term (buf s)); [exact D|].
     destruct (ser_in_waiting s) as [sa w] eqn:Ew.
     pose proof (ser_in_waiting_meas _ _ _ D Ew) as (W1 & _).
-    destruct (ser_read w sa) as [[sb b] sil] eqn:Er.
-    pose proof (ser_read_meas _ _ _ _ _ W1 Er) as (M1 & _). exact M1. }
-  destruct (cut_term term s1) as [[sc rc]|] eqn:Ec.
-  - inversion H; subst sc rc. apply cut_term_Some in Ec as (bb & rest & -> & _ & _ & ->). sim.
+    destruct (ser_read (tick sc) w sa) as [[sb b] sil] eqn:Er.
+    pose proof (ser_read_meas _ _ _ _ _ _ W1 Er) as (M1 & _). exact M1. }
+  destruct (cut_term term s1) as [[sc1 rc]|] eqn:Ec.
+  - inversion H; subst sc1 rc. apply cut_term_Some in Ec as (bb & rest & -> & _ & _ & ->). sim.
     split; [exact D1 | discriminate].
   - split; [eapply ser_ru_loop_dtok; eauto|].
-    eapply ser_ru_loop_fuel; [exact D1 | | exact H | apply ser_fuel_bound; auto].
+    eapply ser_ru_loop_fuel; [exact TK | exact D1 | | exact H | apply ser_fuel_bound; auto].
     unfold tr_ok. destruct tmo; [f_equal; lia | reflexivity].
 Qed.
 
-Lemma serial_step_total s o s' x :
-  dtok (orc s) -> step Serial s o = (s', x) -> dtok (orc s') /\ o_res x <> RFuel.
+Lemma serial_step_total sc s o s' x :
+  (0 < tick sc)%Z -> dtok (orc s) -> step (Serial sc) s o = (s', x) -> dtok (orc s') /\ o_res x <> RFuel.
 Proof.
-  intros D H. apply step_unfold in H as [H _].
+  intros TK D H. apply step_unfold in H as [H _].
   destruct o as [| |n t|tm t|n t| |wd]; cbn [step_raw] in H; unfold nodrop in H.
   - unfold ser_open in H. destruct (is_open s); inversion H; subst; sim; split; auto; congruence.
   - unfold do_close in H. destruct (is_open s); inversion H; subst; sim; split; auto; congruence.
-  - destruct (ser_read_op n t s) as [s1 r1] eqn:E. inversion H; subst. eapply ser_read_op_total; eauto.
-  - destruct (ser_read_until tm t s) as [s1 r1] eqn:E. inversion H; subst. eapply ser_read_until_total; eauto.
-  - unfold ser_rut in H. destruct (ser_read_op n t s) as [s1 r1] eqn:E.
-    apply ser_read_op_total in E as [E1 E2]; [|exact D].
+  - destruct (ser_read_op sc n t s) as [s1 r1] eqn:E. inversion H; subst. eapply ser_read_op_total; eauto.
+  - destruct (ser_read_until sc tm t s) as [s1 r1] eqn:E. inversion H; subst. eapply ser_read_until_total; eauto.
+  - unfold ser_rut in H. destruct (ser_read_op sc n t s) as [s1 r1] eqn:E.
+    apply ser_read_op_total in E as [E1 E2]; [|exact TK|exact D].
     destruct r1; inversion H; subst; sim; split; auto; congruence.
   - unfold ser_discard in H. destruct (ser_arrive_meas s D) as (A1 & _).
     destruct (is_open s); inversion H; subst; sim; split; auto; congruence.
@@ -233,14 +257,14 @@ Qed.
 
 (* all three kinds, whole runs: the out-of-fuel outcome never arises *)
 Definition kok (k : kind) (s : st) : Prop :=
-  match k with Sock _ => kwf k s | Serial => dtok (orc s) end.
+  match k with Sock _ => kwf k s | Serial sc => (0 < tick sc)%Z /\ dtok (orc s) end.
 
 Lemma step_total k s o s' x : kok k s -> step k s o = (s', x) -> kok k s' /\ o_res x <> RFuel.
 Proof.
-  destruct k as [c|]; cbn [kok]; intros W H.
+  destruct k as [c|sc]; cbn [kok]; intros W H.
   - pose proof (step_conservation _ _ _ _ _ W H) as [_ W']. split; [exact W'|].
     destruct W as [W P]. apply (sock_no_fuel c s o s' x W P H).
-  - apply (serial_step_total s o s' x W H).
+  - destruct W as [TK W]. destruct (serial_step_total sc s o s' x TK W H) as [A B]. repeat split; assumption.
 Qed.
 
 Lemma run_total k : forall ops s s' outs,
@@ -256,9 +280,9 @@ Proof.
 Qed.
 
 Lemma run_total_init k o t0 ops s' outs :
-  (forall c, k = Sock c -> wf c o) -> (k = Serial -> Forall ev_dt_ok o) ->
+  (forall c, k = Sock c -> wf c o) -> (forall sc, k = Serial sc -> (0 < tick sc)%Z /\ Forall ev_dt_ok o) ->
   run k (init o t0) ops = (s', outs) -> Forall (fun x => o_res x <> RFuel) outs.
 Proof.
   intros W D H. apply run_total in H as [H _]; [exact H|].
-  destruct k as [c|]; cbn [kok]; [apply init_kwf_sock, W; reflexivity | apply D; reflexivity].
+  destruct k as [c|sc]; cbn [kok]; [apply init_kwf_sock, W; reflexivity | apply (D sc); reflexivity].
 Qed.
